@@ -184,7 +184,7 @@ func boundFromCall(f *FuncInfo, obj types.Object, fn string) bool {
 // identity. That is right for map keys (comparable by construction) and wrong for leaf-list
 // members, which may be wrapper-union pointers or Binary slices.
 func ruleIfaceIdentity(c *Ctx, r *Report) {
-	r.Rule("R-IFACE-IDENTITY", "in ygot's merge code, values extracted with reflect.Value.Interface() are compared by identity (== or used as a map key) only when they are list map keys (from MapKeys/OrderedMapKeys); everything else goes through reflect.DeepEqual", 5)
+	r.Rule("R-IFACE-IDENTITY", "in ygot's merge code, values extracted with reflect.Value.Interface() are compared by identity (== or used as a map key) only when they are list map keys (from MapKeys/OrderedMapKeys); everything else goes through reflect.DeepEqual", 3)
 	fs := c.funcsInScope(func(s string) bool { return s == "ygot/struct_validation_map.go" }, libPkgs)
 	byName := map[string]*FuncInfo{}
 	for _, f := range fs {
@@ -741,7 +741,7 @@ func ruleFmtConst(c *Ctx, r *Report, fs []*FuncInfo, floor int) {
 // ruleKeyExact: list entries are selected by exact string equality between the key given in the
 // path and the entry's rendered key.
 func ruleKeyExact(c *Ctx, r *Report) {
-	r.Rule("R-KEY-EXACT", "in ytypes' retrieveNode family a key taken from the gNMI path is compared with an entry's key by == / != on the bare strings (or with the constant \"*\"): no function is applied to either side, so two distinct key strings never select the same entry", 5)
+	r.Rule("R-KEY-EXACT", "in ytypes' retrieveNode family a key taken from the gNMI path is compared with an entry's key by == / != on the bare strings (or with the constant \"*\"): no function is applied to either side, so two distinct key strings never select the same entry", 3)
 	for _, name := range []string{"retrieveNodeList", "retrieveNodeOrderedList"} {
 		f := c.MustFunc(r, "ytypes", name)
 		if f == nil {
@@ -885,7 +885,7 @@ func ruleLossyNum(c *Ctx, r *Report, fs []*FuncInfo, floor int) {
 
 // ruleIntBase: the renderers write integers in decimal; the parsers must read decimal only.
 func ruleIntBase(c *Ctx, r *Report) {
-	r.Rule("R-INT-BASE", "every strconv.ParseInt/ParseUint in ytypes' key and value parsers and every strconv.FormatInt/FormatUint in ygot's renderers uses the constant base 10: with base 0 the strings 0x10, 0b11, 0o7, 1_000 parse as integers, so a string member of a union key is turned into a different (integer) key", 6)
+	r.Rule("R-INT-BASE", "every strconv.ParseInt/ParseUint in ytypes' key and value parsers and every strconv.FormatInt/FormatUint in ygot's renderers uses the constant base 10: with base 0 the strings 0x10, 0b11, 0o7, 1_000 parse as integers, so a string member of a union key is turned into a different (integer) key", 4)
 	scope := func(s string) bool {
 		return s == "ytypes/util_types.go" || s == "ytypes/leaf.go" || s == "ytypes/list.go" || s == "ytypes/node.go" || s == "ygot/render.go" || s == "util/reflect.go"
 	}
@@ -959,23 +959,65 @@ func emptyLeafListCond(info *types.Info, cond ast.Expr) bool {
 	return lenZero && notBinary
 }
 
-// nonEmptyAt: the facts at n exclude an empty leaf-list.
-func nonEmptyAt(c *Ctx, f *FuncInfo, n ast.Node) (bool, string) {
-	info := f.Info()
-	for _, ft := range c.FactsAt(f, n, true) {
+// nonEmptyFacts: a set of facts excludes an empty leaf-list — through the negation of the whole
+// "empty leaf-list" condition, through Len() != 0, or (facts read off control-flow edges, where
+// && has been lowered) through the refutation of one of that condition's conjuncts.
+func nonEmptyFacts(info *types.Info, facts []Fact) (bool, string) {
+	isLen := func(e ast.Expr) bool {
+		call, ok := ast.Unparen(e).(*ast.CallExpr)
+		return ok && FullName(Callee(info, call)) == "reflect.Value.Len"
+	}
+	for _, ft := range facts {
 		if ft.Kind != "cond" {
 			continue
 		}
 		if !ft.Pos && emptyLeafListCond(info, ft.Cond) {
 			return true, "not (" + types.ExprString(ft.Cond) + ")"
 		}
-		if be, ok := ast.Unparen(ft.Cond).(*ast.BinaryExpr); ok && ft.Pos && (be.Op == token.NEQ || be.Op == token.GTR) {
-			if call, ok := ast.Unparen(be.X).(*ast.CallExpr); ok && FullName(Callee(info, call)) == "reflect.Value.Len" {
-				if v, ok := ConstOf(info, be.Y); ok && v == "0" {
-					return true, types.ExprString(ft.Cond)
+		switch x := ast.Unparen(ft.Cond).(type) {
+		case *ast.BinaryExpr:
+			zero := false
+			if v, ok := ConstOf(info, x.Y); ok && v == "0" {
+				zero = true
+			}
+			switch {
+			case isLen(x.X) && zero && ft.Pos && (x.Op == token.NEQ || x.Op == token.GTR):
+				return true, types.ExprString(ft.Cond)
+			case isLen(x.X) && zero && !ft.Pos && x.Op == token.EQL:
+				return true, "not " + types.ExprString(ft.Cond)
+			case !ft.Pos && x.Op == token.EQL && (constName(info, x.X) == "reflect.Slice" || constName(info, x.Y) == "reflect.Slice"):
+				return true, "not a slice"
+			case !ft.Pos && x.Op == token.NEQ:
+				for _, side := range []ast.Expr{x.X, x.Y} {
+					if v, ok := ConstOf(info, side); ok && strings.Trim(v, `"`) == "Binary" {
+						return true, "a Binary leaf"
+					}
 				}
 			}
+		case *ast.CallExpr:
+			if !ft.Pos && FullName(Callee(info, x)) == P("util")+".IsValueSlice" {
+				return true, "not a slice"
+			}
 		}
+	}
+	return false, ""
+}
+
+// nonEmptyAt: an empty leaf-list cannot reach n — by the lexical facts, or on every control-flow path.
+func nonEmptyAt(c *Ctx, f *FuncInfo, n ast.Node) (bool, string) {
+	info := f.Info()
+	if ok, why := nonEmptyFacts(info, c.FactsAt(f, n, true)); ok {
+		return true, why
+	}
+	why := ""
+	if holds, decided := c.EveryPath(f, n, func(facts []Fact) bool {
+		ok, w := nonEmptyFacts(info, facts)
+		if ok {
+			why = w
+		}
+		return ok
+	}); decided && holds {
+		return true, "on every path: " + why
 	}
 	return false, ""
 }
@@ -1881,6 +1923,12 @@ func ruleSchemaTreeKey(c *Ctx, r *Report) {
 			if len(rs.Results) == 2 && !isNilConst(f.Info(), rs.Results[0]) {
 				pathSources(f, rs.Results[0], 0, src)
 			}
+			if len(rs.Results) == 1 {
+				// `return helper(callerPath, …)`: the result is computed from the arguments.
+				if _, isCall := ast.Unparen(rs.Results[0]).(*ast.CallExpr); isCall {
+					pathSources(f, rs.Results[0], 0, src)
+				}
+			}
 		}
 		var bad, good []string
 		for fn := range src {
@@ -2232,5 +2280,82 @@ func ruleUnsetKey(c *Ctx, r *Report) {
 		if n == 0 {
 			r.Und("ytypes.makeKeyForInsert:key-field-copy", c.Pos(f.Decl.Pos()), "no key-field copy found in the struct-key loop: re-confirm the rule")
 		}
+	}
+}
+
+// ---- R-UNION-CONV (C01, C02) --------------------------------------------------------------------------
+
+// ruleUnionConv: a decoded union value reaches the generated To_<Union> converter as the Go type
+// ytypes' decoder produces for its YANG kind (yangBuiltinTypeToGoType): int8 … uint64, float64,
+// string, bool, []byte. The converter is a type switch, which matches dynamic types exactly, so
+// for every member kind the wrapper-union template must have an arm of exactly that type — an arm
+// for the generated named type (Binary) does not match the decoder's []byte.
+func ruleUnionConv(c *Ctx, r *Report) {
+	r.Rule("R-UNION-CONV", "the wrapper-union converter gogen generates (template unionHelper, expanded over a union with one member of every scalar kind the generator maps) has, for every member kind, a type-switch arm of exactly the Go type ytypes.yangBuiltinTypeToGoType produces for that kind", 10)
+	g := extractT1(c, r)
+	dec := c.MustFunc(r, "ytypes", "yangBuiltinTypeToGoType")
+	ts := c.templatesOf("gogen")
+	if g == nil || dec == nil || ts["unionHelper"] == nil {
+		if ts["unionHelper"] == nil {
+			r.Und("gogen.unionHelper:template", "-", "template unionHelper not found")
+		}
+		return
+	}
+	sws := KindSwitches(dec, yangKind)
+	if len(sws) != 1 {
+		r.Und("ytypes.yangBuiltinTypeToGoType:table", c.Pos(dec.Decl.Pos()), "dispatch shape not recognised")
+		return
+	}
+	dinfo := dec.Info()
+	decoderType := map[string]string{}
+	for k, a := range sws[0].ByKey {
+		for _, st := range a.Body {
+			if rs, ok := st.(*ast.ReturnStmt); ok && len(rs.Results) == 1 {
+				if tv, ok := dinfo.Types[rs.Results[0]]; ok && tv.Type != nil {
+					decoderType[k] = types.TypeString(tv.Type, nil)
+				}
+			}
+		}
+	}
+	// the union: one member per scalar kind with a native (non-enumerated, non-derived) Go type.
+	typesMap := map[string]string{}
+	var typeNames []string
+	kindOf := map[string]string{} // native type → kind
+	for k, nat := range g.native {
+		if nat == "" || nat == "enum" || nat == "interface{}" || decoderType[k] == "" {
+			continue
+		}
+		if k == "yang.Yenum" || k == "yang.Yidentityref" || k == "yang.Yunion" || k == "yang.Yleafref" || k == "yang.Yempty" {
+			continue
+		}
+		if _, dup := kindOf[nat]; dup {
+			continue
+		}
+		kindOf[nat] = k
+		nm := strings.ToUpper(nat[:1]) + nat[1:]
+		typesMap[nm] = nat
+		typeNames = append(typeNames, nat)
+	}
+	sort.Strings(typeNames)
+	src, err := instantiate(ts["unionHelper"], map[string]any{"Name": "Device_U_Union", "LeafPath": "/device/u", "ParentReceiver": "Device", "Types": typesMap, "TypeNames": typeNames})
+	if err != nil {
+		r.Und("gogen.unionHelper:expand", "-", "template expansion failed: "+err.Error())
+		return
+	}
+	arms := map[string]bool{}
+	for _, line := range strings.Split(src, "\n") {
+		line = strings.TrimSpace(line)
+		if strings.HasPrefix(line, "case ") && strings.HasSuffix(line, ":") {
+			for _, t := range strings.Split(strings.TrimSuffix(strings.TrimPrefix(line, "case "), ":"), ",") {
+				arms[strings.TrimSpace(t)] = true
+			}
+		}
+	}
+	norm := func(t string) string { return strings.ReplaceAll(t, "[]uint8", "[]byte") }
+	for _, nat := range typeNames {
+		k := kindOf[nat]
+		want := norm(decoderType[k])
+		r.Check(arms[want], "gogen.unionHelper:arm("+strings.TrimPrefix(k, "yang.")+")", "gogen/gogen.go (template unionHelper)", fmt.Sprintf("decoder hands over %s; the converter has an arm for it", want),
+			fmt.Sprintf("for a %s member the decoder hands the value to To_<Union> as %s, but the generated type switch only has an arm for %s: a wrapper union holding such a member can be rendered but not unmarshalled again (\"unknown union type, got: %s\")", strings.TrimPrefix(k, "yang.Y"), want, nat, decoderType[k]))
 	}
 }
